@@ -3,7 +3,8 @@ package server
 // C04 driver: publishes with mixed ack policies (single messages and groups that form one batch),
 // follower progress reports, ISR shrinks and expansions on a partition whose followers are played
 // by the driver (partdrv_test.go); RF 1, 2 and 3, minimum ISR 1..3, with and without optimistic
-// concurrency control.  After every step: newest offset, HW, ISR offsets and every ack received.
+// concurrency control; and leader terms: another replica leads for a while (the real server follows it,
+// cuts its log back to what that leader has and fetches what it wrote), then the real server leads again.  After every step: newest offset, HW, ISR offsets and every ack received.
 
 import (
 	"bytes"
@@ -46,8 +47,11 @@ func TestVerifC04(t *testing.T) {
 		for k := 0; k < n; k++ {
 			id++
 			rf := 1 + r.intn(3)
-			replicas := []string{me, "b", "c"}[:rf]
 			cc := r.intn(3) == 0 || os.Getenv("VERIF_CC_ONLY") != ""
+			if k == 0 && os.Getenv("VERIF_CC_ONLY") == "" {
+				rf, cc = 3, false // the corpus history below
+			}
+			replicas := []string{me, "b", "c"}[:rf]
 			name := fmt.Sprintf("s%d", id)
 			v, err := vNewPart(srv, name, replicas, func(st *proto.Stream) {
 				if cc {
@@ -67,6 +71,7 @@ func TestVerifC04(t *testing.T) {
 				}
 			}
 			corr := 0
+			regains := 0
 			sent := map[string]vM{}
 			follower := map[string]int64{"b": -1, "c": -1}
 			inISR := map[string]bool{"b": rf >= 2, "c": rf >= 3}
@@ -132,17 +137,119 @@ func TestVerifC04(t *testing.T) {
 							m["acked"] = true
 						}
 					}
-					if m["checked"] == nil {
-						m["checked"] = true
+					ck := fmt.Sprintf("checked@%d", off)
+					if m[ck] == nil {
+						m[ck] = true
 						if got := vC04ValueAt(v, off); !bytes.Equal(got, []byte(m["value"].(string))) {
 							setViol("ack-wrong-offset", fmt.Sprintf("message %s acknowledged at offset %d, which holds %q", a["corr"], off, got))
 						}
 					}
 				}
 			}
+			followerStep := func(f string, o int64) {
+				nw := v.p.log.NewestOffset()
+				if o > follower[f] {
+					follower[f] = o
+				}
+				caughtBefore := v.lastCaughtUp(f)
+				v.follower(f, o)
+				stats["step/follower"]++
+				observe(vM{"op": "follower", "r": f, "o": o})
+				// "caught up" (what keeps a replica in the ISR, and brings it back) is said by the replica's own
+				// request: one that reports less than the log end leaves the mark where it was, whatever is sent back
+				if o < nw && v.lastCaughtUp(f).After(caughtBefore) {
+					setViol("caught-up-without-reporting-the-log-end", fmt.Sprintf("replica %s reported offset %d of a log that ends at %d; the leader sent it the rest and marked it as caught up although it has not said that it stored anything beyond %d", f, o, nw, o))
+				}
+			}
+			publishOne := func(pol client.AckPolicy) {
+				corr++
+				cid := fmt.Sprintf("m%03d", corr)
+				val := fmt.Sprintf("%s:%s", cid, "xxxxxxxx")
+				sent[cid] = vM{"corr": cid, "policy": pol.String(), "large": false, "expected": int64(-1), "value": val, "wrong": false}
+				v.publish(cid, nil, []byte(val), pol, -1)
+				if sc.batch {
+					time.Sleep(70 * time.Millisecond)
+				}
+				stats["step/publish"]++
+				observe(vM{"op": "publish", "msgs": []vM{{"corr": cid, "policy": pol.String(), "large": false, "expected": int64(-1)}}})
+			}
+			// another leader term: replica f (in the ISR) leads; it holds the real server's log up to `keep` (not below
+			// the HW) and writes `foreign` messages of its own, announcing the HW `simHW`; the real server follows it --
+			// cuts its log back to `keep`, fetches the rest -- and is then elected again.  What the other replicas
+			// reported to the real server in its earlier term says nothing about what they store now.
+			regain := func(f string, keep int64, foreign int, simHW int64) {
+				v.settle()
+				dump := vLogDump(v.p)
+				sl := vNewSimLeader(v, f)
+				for _, e := range dump {
+					if e["off"].(int64) <= keep {
+						sl.appendMsg(e["ep"].(uint64), e["v"].(string))
+					}
+				}
+				hwBefore := v.p.log.HighWatermark()
+				sl.mu.Lock()
+				sl.hw = simHW
+				sl.mu.Unlock()
+				e2, err := sl.lead()
+				if err != nil {
+					setViol("lead-failed", err.Error())
+					sl.close()
+					return
+				}
+				for i := 0; i < foreign; i++ {
+					sl.appendMsg(e2, fmt.Sprintf("foreign-%d-%d", e2, i))
+				}
+				sl.wakeFollower()
+				want := keep + int64(foreign)
+				wantHW := simHW
+				if wantHW > want {
+					wantHW = want
+				}
+				if wantHW < hwBefore {
+					wantHW = hwBefore
+				}
+				fp := srv.s.metadata.GetPartition(name, 0)
+				for i := 0; i < 1500; i++ {
+					if fp.log.NewestOffset() == want && fp.log.HighWatermark() == wantHW {
+						break
+					}
+					time.Sleep(4 * time.Millisecond)
+				}
+				if _, err := sl.handBack(); err != nil {
+					setViol("hand-back-failed", err.Error())
+				}
+				sl.close()
+				// what the phantom replicas store now: f everything, the others what they had of the part that was kept
+				for x := range follower {
+					if x == f {
+						follower[x] = want
+					} else if follower[x] > keep {
+						follower[x] = keep
+					}
+				}
+				stats["step/regain"]++
+				if keep < int64(len(dump))-1 {
+					stats["step/regain-cut-back"]++
+				}
+				observe(vM{"op": "regain", "r": f, "keep": keep, "foreign": foreign, "simhw": simHW})
+			}
+			if k == 0 && rf == 3 && !cc {
+				// corpus: c reports everything, b only the first message; b leads for a term and overwrites the tail; the
+				// real server leads again and b alone reports the next ALL message: c's old report must not count
+				for i := 0; i < 3; i++ {
+					publishOne(client.AckPolicy_NONE)
+				}
+				followerStep("c", 2)
+				followerStep("b", 0)
+				regain("b", 0, 1, 0)
+				publishOne(client.AckPolicy_ALL)
+				followerStep("b", 2)
+				followerStep("c", 2)
+				stats["corpus/regained-leadership-stale-reports"]++
+			}
 			nsteps := 8 + r.intn(16)
 			for j := 0; j < nsteps && viol == ""; j++ {
-				switch r.pick(10, 7, 2, 2, 3, 3) {
+				switch r.pick(10, 7, 2, 2, 3, 3, 1) {
 				case 0, 4:
 					// one message, or (batching server) a group sent back to back
 					k := 1
@@ -218,18 +325,7 @@ func TestVerifC04(t *testing.T) {
 					if o < 0 {
 						o = 0
 					}
-					if o > follower[f] {
-						follower[f] = o
-					}
-					caughtBefore := v.lastCaughtUp(f)
-					v.follower(f, o)
-					stats["step/follower"]++
-					observe(vM{"op": "follower", "r": f, "o": o})
-					// "caught up" (what keeps a replica in the ISR, and brings it back) is said by the replica's own
-					// request: one that reports less than the log end leaves the mark where it was, whatever is sent back
-					if o < nw && v.lastCaughtUp(f).After(caughtBefore) {
-						setViol("caught-up-without-reporting-the-log-end", fmt.Sprintf("replica %s reported offset %d of a log that ends at %d; the leader sent it the rest and marked it as caught up although it has not said that it stored anything beyond %d", f, o, nw, o))
-					}
+					followerStep(f, o)
 				case 5:
 					// a replication request that was sent under an earlier leader epoch arrives late: it says that
 					// the replica has everything; the leader must not take its offset for the replica's progress
@@ -245,6 +341,22 @@ func TestVerifC04(t *testing.T) {
 					v.followerAt(f, nw, epoch-1)
 					stats["step/stale-follower"]++
 					observe(vM{"op": "stale", "r": f, "o": nw})
+				case 6:
+					var cands []string
+					for _, f := range []string{"b", "c"}[:rf-1] {
+						if inISR[f] {
+							cands = append(cands, f)
+						}
+					}
+					if len(cands) == 0 || regains >= 2 {
+						continue
+					}
+					regains++
+					f := cands[r.intn(len(cands))]
+					nw, hw := v.p.log.NewestOffset(), v.p.log.HighWatermark()
+					keep := hw + int64(r.intn(int(nw-hw)+1))
+					foreign := r.intn(3)
+					regain(f, keep, foreign, hw+int64(r.intn(int(keep+int64(foreign)-hw)+1)))
 				case 2:
 					var cands []string
 					for _, f := range []string{"b", "c"}[:rf-1] {
